@@ -467,7 +467,7 @@ func runC05(c *Ctx) {
 		}
 		// ---- LeaseSet2 / MetaLeaseSet / EncryptedLeaseSet, with and without offline keys
 		for _, offline := range []bool{false, true} {
-			l2, _ := signLS2(r, k, sigType, offline)
+			l2, tkey := signLS2(r, k, sigType, offline)
 			w = l2.Encode()
 			sc = signedCase{E_VerifyLeaseSet2, "LeaseSet2.Verify", []byte{3}, w, nil}
 			auth := 1
@@ -513,6 +513,24 @@ func runC05(c *Ctx) {
 				l4.Sig = ed25519.Sign(t.priv, cat([]byte{3}, l4.Encode()))
 				sc.input = l4.Encode()
 				c05Run(c, sc, 0)
+				// after the genuine structure has been verified (above, in this process): the
+				// offline block's expiry or transient type rewritten WITHOUT the identity signing
+				// again — original offline signature kept — and the structure re-signed by the
+				// legitimate transient key.  The identity never authorised these blocks.
+				for _, edit := range []int{0, 1} {
+					l5 := l2
+					o5 := *l2.H.Offline
+					if edit == 0 {
+						o5.Expires += 1000000
+					} else {
+						o5.SigType = 11
+					}
+					l5.H.Offline = &o5
+					l5.Sig = nil
+					l5.Sig = ed25519.Sign(tkey.priv, cat([]byte{3}, l5.Encode()))
+					sc.input = l5.Encode()
+					c05Run(c, sc, 0)
+				}
 			} else {
 				// signed by the attacker
 				l3 := l2
